@@ -14,6 +14,19 @@ def bare_index(rng):
     return sign + body
 
 
+def star_key_shape(i):
+    """the recorded finding C04/star-key-recursion: some dictionary of the tree has the text '*' as a key and the path has
+    a step whose name is '*'"""
+    def has_star_key(t):
+        if isinstance(t, dict):
+            return "*" in t or any(has_star_key(v) for v in t.values())
+        if isinstance(t, (list, tuple)):
+            return any(has_star_key(v) for v in t)
+        return False
+    steps = [st.strip() for st in i["xpath"].lstrip("?").replace("][", "]/[").split("/")]
+    return has_star_key(i["tree"]) and any(st == "*" or st.startswith("*[") for st in steps)
+
+
 class C04(Prop):
     id = "C04"
     props_file = "Props/C04.v"
@@ -28,6 +41,7 @@ class C04(Prop):
     classifiers = {
         "c04_new_in_lookup": lambda case, obs, failure: "new()" in case["input"]["xpath"].replace(" ", "").lower()
         and "modified the tree" in failure,
+        "c04_star_key": lambda case, obs, failure: star_key_shape(case["input"]),
     }
 
     def valid(self, case):
